@@ -539,6 +539,7 @@ func (s *SourceControl) WriteComment(comment *string, reply *bool) error {
 			fp, err := os.Create(commentFilename)
 			if err != nil {
 				s.queuedResults <- err
+				return
 			}
 			defer fp.Close()
 			fp.WriteString(*comment)
